@@ -73,7 +73,7 @@ def gen_cfg(rng, focus, solvers=('nm', 'powell', 'de', 'de2')):
     # ---- penalty / reducer
     if rng.random() < {'c01': 0.5, 'c02': 0.15, 'c03': 0.3}[focus]:
         cfg['pen'] = K.gen_penalty(rng, dim)
-    if focus == 'c01' and rng.random() < 0.2:
+    if (focus == 'c01' and rng.random() < 0.2) or (focus == 'c02' and rng.random() < 0.15):
         cfg['cost'] = ['array', [round(rng.uniform(-2, 2), 2) for _ in range(dim)]]
         cfg['reducer'] = rng.choice(['sum', 'max', 'mean', 'min', 'prod'])
         cfg['reducer_arraylike'] = rng.random() < 0.5 or cfg['reducer'] == 'mean'
